@@ -402,6 +402,28 @@ pub fn drive(tier: &str) -> i32 {
         }
         groups.push(("flat operator chains of 300 .. 10 000 operands (no nesting in the text)".into(), flat));
     }
+    {
+        // every shape of a name (bare, with each suffix, dotted, dotted with a suffix on the last or an inner part, on an
+        // array element, with empty parentheses) at the head of every kind of statement that starts with a name
+        let names = [
+            "A", "A$", "A%", "A.B", "A.B$", "A.B%", "A.B.C", "A.B.C$", "A$.B", "A%.B$", "A(1)", "A(1).B", "A(1).B$", "A(1).B.C$", "A$(1).B", "A()", "A().B", "A().B$", "A(1)(2)", "A.B(1)", "A.B$(1)", "A..B", "A.", "A.$", "A.B.", ".A",
+            "Emp.Name$", "R.F", "R.F$", "R.G.H%", "T(2).F$",
+        ];
+        let decl = "TYPE Inner\n  H AS INTEGER\nEND TYPE\nTYPE Rec\n  F AS STRING * 3\n  G AS Inner\nEND TYPE\nDIM R AS Rec\nDIM T(3) AS Rec\n";
+        let mut texts = vec![];
+        for n in names {
+            for form in [
+                "{}", "{} 1", "{} \"x\"", "{} 1, 2", "{} (1)", "{}(1)", "{}: PRINT 1", "{} = 1", "{} = \"x\"", "CALL {}", "CALL {}(1)", "CALL {} (1, 2)", "LET {} = 1", "PRINT {}", "PRINT {}; {}", "X = {}", "X$ = {} + \"\"",
+                "FOR {} = 1 TO 2\nNEXT", "FOR I = 1 TO 2\nNEXT {}", "INPUT {}", "LINE INPUT {}", "READ {}", "DIM {}", "DIM {} AS INTEGER", "DIM {}(2)", "REDIM {}(2)", "CONST {} = 1", "GOTO {}", "GOSUB {}", "SUB {}\nEND SUB", "FUNCTION {}\nEND FUNCTION",
+                "DECLARE SUB {} ()", "SELECT CASE {}\nCASE 1\nEND SELECT", "IF {} THEN PRINT 1", "WHILE {}\nWEND", "LSET {} = \"x\"", "FIELD #1, 2 AS {}", "X = LEN({})", "X = VARPTR({})", "DEF SEG = {}", "SWAP {}, X", "ON ERROR GOTO {}", "RESUME {}",
+            ] {
+                let stmt = form.replace("{}", n);
+                texts.push(format!("{}\n", stmt));
+                texts.push(format!("{}{}\n", decl, stmt));
+            }
+        }
+        groups.push(("31 name shapes (bare, suffixed, dotted, dotted with a suffix, on array elements) x 43 statement heads, with and without declarations".into(), texts));
+    }
     groups.push(("harvested texts as they are".into(), corpus.iter().map(|(_, t)| t.clone()).collect()));
 
     // seeds for edits: accepted programs; quick = first program per source file + fixtures.
